@@ -25,6 +25,9 @@ for name in sorted(os.listdir(src)):
     os.makedirs(dst, exist_ok=True)
     for f in ("patch.diff", "demo.py", "NOTES.md"):
         shutil.copy(os.path.join(src, name, f), os.path.join(dst, f))
+    compiled = os.environ.get("IMPORT_COMPILED") == "1" and not name.endswith(tuple(os.environ.get("IMPORT_NOT_COMPILED", "-").split(",")))
+    if compiled:
+        json.dump({"needs_compiled": True}, open(os.path.join(dst, "meta.json"), "w"))
     val = json.loads(subprocess.run([os.path.join(VERIF, "tools", "seeded.py"), "validate", dst], capture_output=True,
                                     text=True).stdout)
     checks = [cid] + extra.get(f"{cid}-{suf}", [])
@@ -43,6 +46,8 @@ for name in sorted(os.listdir(src)):
         "quick_checks": det,
         "caught_by": [c for c, r in det.items() if isinstance(r, dict) and r.get("exit") == 1],
     }
+    if compiled:
+        meta["needs_compiled"] = True       # shows only in a mypyc build: detection builds the scratch copy
     json.dump(meta, open(os.path.join(dst, "meta.json"), "w"), indent=1, ensure_ascii=False)
     print(f"{cid}-{suf}: valid={val.get('valid')} caught_by={meta['caught_by']} "
           f"{ {c: r.get('exit') for c, r in det.items() if isinstance(r, dict)} }", flush=True)
